@@ -25,11 +25,22 @@ var c06OptStates = []string{"v", "missing", "nil"}
 
 var c06OptNames = []string{"title", "sidebar", "slot", "toolbar", "left", "over", "v", "t-s", "vslot", "s", "o1", "default-x", "header2", "x_y"}
 
-func c06NOpt(ctx core.Ctx) int { return 3*81*2 + 3*2 + 3*2*2 + len(c06OptNames)*4*2 + 3*2 + 4*2 + 3*2 }
+func c06NOpt(ctx core.Ctx) int {
+	return 3*81*2 + 3*2 + 3*2*2 + len(c06OptNames)*4*2 + 3*2 + 4*2 + 3*2 + 8*2
+}
 
 func c06BuildOpt(i int) c06Case {
 	o := c06Opt{Entry: []string{"vue", "file"}[i%2]}
 	i /= 2
+	if i >= 3*81+3+6+len(c06OptNames)*4+3+4+3 {
+		// supplied content whose top level holds a v-if chain and a loop with its v-else:
+		// the members belong together however the content is handed over
+		j := i - (3*81 + 3 + 6 + len(c06OptNames)*4 + 3 + 4 + 3)
+		o.Shape = "chaincontent"
+		o.Form = []string{"plain", "tpl"}[j%2]
+		o.Notes = []string{[]string{"T", "F"}[(j/2)%2], []string{"0", "2"}[(j/4)%2]}
+		return c06Case{Part: "opt", Opt: &o}
+	}
 	if i >= 3*81+3+6+len(c06OptNames)*4+3+4 {
 		// slot props bound in the long form (v-bind:n is documented as equivalent to :n)
 		o.Shape = "vbind"
@@ -177,6 +188,61 @@ func c06ExecOptFnProps(c c06Case, o *core.Obs) {
 	}
 }
 
+func c06ExecOptChainContent(c c06Case, o *core.Obs) {
+	op := c.Opt
+	content := `<b v-if="a" data-m="A">A</b><i v-else data-m="notA">B</i> <u v-for="n in list" data-m="item">{{ n }}</u><s v-else data-m="none">none</s>`
+	sup := content
+	if op.Form == "tpl" {
+		sup = `<template #default>` + content + `</template>`
+	}
+	page := `<template include="comp.vuego">` + sup + `</template><template include="comp.vuego">` + sup + `</template>`
+	comp := `<div data-m="comp"><slot>FB</slot></div>`
+	files := map[string]string{"page.vuego": page, "comp.vuego": comp}
+	data := map[string]any{"a": op.Notes[0] == "T", "list": []any{}}
+	want := []string{"notA", "none"}
+	if op.Notes[0] == "T" {
+		want[0] = "A"
+	}
+	if op.Notes[1] == "2" {
+		data["list"] = []any{1, 2}
+		want = []string{want[0], "item", "item"}
+	}
+	var out string
+	var err error
+	if op.Entry == "vue" {
+		out, err = renderVue(memFS(files), "page.vuego", data)
+	} else {
+		out, err = renderFile(memFS(files), "page.vuego", data)
+	}
+	o.Evals++
+	o.NT("opt-chaincontent", mustJSON(op))
+	o.Cell("part/opt/chaincontent/" + op.Form)
+	if err != nil {
+		o.Fail(c, "opt/chaincontent/render-error", "render failed: %v\npage: %s", err, page)
+		return
+	}
+	comps := oracle.Parse(out, false).ByAttr("data-m", "comp")
+	if len(comps) != 2 {
+		o.Fail(c, "opt/chaincontent/instances", "want 2 component instances, got %d\noutput: %s", len(comps), out)
+		return
+	}
+	for k, inst := range comps {
+		var got []string
+		for _, m := range inst.AllMarkers("data-m") {
+			if m != "comp" {
+				got = append(got, m)
+			}
+		}
+		if strings.Contains(inst.InnerText(), "FB") {
+			got = append(got, "FALLBACK")
+		}
+		if strings.Join(got, " ") != strings.Join(want, " ") {
+			o.Fail(c, "opt/chaincontent/chain-or-else-member-lost/"+op.Form, "instance %d: supplied content with a v-if chain and a loop + v-else at its top level (a=%s, %s items): want %v, got %v\npage: %s\noutput: %s", k, op.Notes[0], op.Notes[1], want, got, page, out)
+			return
+		}
+	}
+}
+
 func c06ExecOptVBind(c c06Case, o *core.Obs) {
 	op := c.Opt
 	body := `<b data-m="row">{{ p.a }}|{{ p.b }}|{{ p.c }}</b>`
@@ -273,6 +339,10 @@ func c06ExecOpt(c c06Case, o *core.Obs) {
 	op := c.Opt
 	if op.Shape == "fbmarkup" {
 		c06ExecOptFbMarkup(c, o)
+		return
+	}
+	if op.Shape == "chaincontent" {
+		c06ExecOptChainContent(c, o)
 		return
 	}
 	if op.Shape == "vbind" {
